@@ -5,8 +5,8 @@
 (*   @@CASE {schema, env, want, missing: <<names>>, used: <<names of the root text>>}        *)
 EXTENDS TypeGraph, Tables, TLC, Json, SequencesExt
 CONSTANTS NTypes, Level
+CONSTANTS DropRequiredAtCut, ShiftItemsAtCut, OptionalOnlyByRule
 I == INSTANCE Graph WITH LookupInOwnTypeTable <- TRUE        \* the pinned tree's recursion check
-CONSTANTS DropRequiredAtCut, ShiftItemsAtCut
 X == INSTANCE ExBuild
 R(n, v) == [n |-> n, v |-> v]
 BV(b) == [t |-> "bool", bv |-> b]
@@ -82,14 +82,14 @@ Env == [types |-> [i \in 1..NTypes |-> [name |-> TName(i - 1), n |-> bodies[i - 
 \* (a key type that is not a string is an error of its own, which may be reported before a missing name)
 UsesNullable == \E i \in DOMAIN bodies : bodies[i] \in NullableBodies
 Want == IF Level = 4 \/ UsesNullable THEN "unspec" ELSE GraphVerdict(Env, root)
-Emit == PrintT("@@CASE " \o ToJson([schema |-> root, env |-> Env, want |-> Want,
+Emit == PrintT("@@CASE " \o ToJson([schema |-> root, env |-> Env, want |-> Want, opt |-> KeysOptDefault,
                                    missing |-> SetToSeq(Missing(Env, root)), used |-> SetToSeq(Refs(root)),
                                    pred_star_rejects |-> I!ImplRejectsRecursion(Env, root, FALSE),
                                    pred_mesh_rejects |-> I!ImplRejectsRecursion(Env, root, TRUE),
                                    pred_1303 |-> I!Pred1303(Env, root)]))
 \* the example builder (I layer, ExBuild) yields, on every accepted graph, a value the requirement accepts
 ExampleValid == (Level \in {1, 2, 3} /\ ~UsesNullable /\ GraphVerdict(Env, root) = "accept") =>
-                  LET ex == X!Example(Env, root) IN ex # X!NIL /\ Verdict(Env, root, ex, FALSE) = "accept"
+                  LET ex == X!Example(Env, root) IN ex # X!NIL /\ Verdict(Env, root, ex, KeysOptDefault) = "accept"
 \* under the mesh protocol the implementation-shaped search agrees with the requirement (where that is specified)
 MeshModelAgrees == (~UsesNullable /\ GraphVerdict(Env, root) \in {"accept", "reject"}) =>
                      ((I!ImplRejectsRecursion(Env, root, TRUE) \/ I!Pred1303(Env, root)) <=> (GraphVerdict(Env, root) = "reject" \/ I!Pred1303(Env, root)))
